@@ -212,7 +212,11 @@ Definition test_handler : handler :=
     | _ => HReject
     end.
 
-(* int() of digit strings, checked against CPython by the correspondence *)
+(* handler code used by the correspondence cases: 0 = default_handler, 1 = test_handler *)
+Definition handler_of (k : Z) : handler := if k =? 0 then default_handler else test_handler.
+
+(* int() of digit strings, checked against CPython by the correspondence
+   (values compared modulo a prime to keep the literals short) *)
 Definition check_int (cs : bytes * Z * option Z) : bool :=
   let '(b, maxdig, r) := cs in
-  option_eqb Z.eqb (if is_digits b && digits_ok maxdig b then Some (dec_val b) else None) r.
+  option_eqb Z.eqb (if is_digits b && digits_ok maxdig b then Some (dec_val b mod 1000000007) else None) r.
